@@ -2,11 +2,12 @@
 
 pub mod c01;
 pub mod c02;
+pub mod c12;
 pub mod c13;
 
 use crate::kernel::{Check, RunCtx, Stats, Tier, prng};
 
-pub static ALL: &[&'static dyn Check] = &[&c01::C01, &c02::C02, &c13::C13];
+pub static ALL: &[&'static dyn Check] = &[&c01::C01, &c02::C02, &c12::C12, &c13::C13];
 
 /// Determinism self-test: every case is planned and executed twice in this process; plans,
 /// findings and the statistics (which include every fault that fired and every probe) must be
@@ -94,7 +95,8 @@ pub fn selftest_domain(seed: u64, cases: u64, only: Option<&str>) -> i32 {
                     Some(f) if kind == kinds::Kind::Bgzf => obs.bytes == f.data,
                     _ => true,
                 };
-                if obs.end != End::Eof || got != made.expected || !ok_bytes {
+                let model_ok = !kinds::has_model(kind, variant) || got == made.expected;
+                if obs.end != End::Eof || !model_ok || !ok_bytes {
                     bad += 1;
                     if bad <= 20 {
                         let d = crate::fmt::first_diff(&got, &made.expected);
